@@ -493,7 +493,7 @@ def chain_family(r, tier):
 
 def shards(tier, seed):
     n = 8 if tier == "quick" else 32
-    return [("paths", spelling, k, n) for spelling in ("absolute", "relative", "package", "unicode", "handle404") for k in range(n)] + [("paths", "dotted", k, 2) for k in range(2)] + [("paths", "symlink", k, 2) for k in range(2)] + [("paths", "tilde", k, 2) for k in range(2)] + [("threads", "Files"), ("threads", "Pages"), ("chain",), ("layouts",)] + [("python-O", ("paths", "absolute", 0, n)), ("python-O", ("paths", "relative", 1, n)), ("python-O", ("chain",)), ("python-O", ("layouts",))]
+    return [("paths", spelling, k, n) for spelling in ("absolute", "relative", "package", "unicode", "handle404") for k in range(n)] + [("paths", "dotted", k, 2) for k in range(2)] + [("paths", "symlink", k, 2) for k in range(2)] + [("paths", "tilde", k, 2) for k in range(2)] + [("threads", "Files"), ("threads", "Pages"), ("chain",), ("layouts",), ("layouts", "nested")] + [("python-O", ("paths", "absolute", 0, n)), ("python-O", ("paths", "relative", 1, n)), ("python-O", ("chain",)), ("python-O", ("layouts",))]
 
 
 def thread_family(r, kind, tier):
@@ -519,14 +519,29 @@ LAYOUT_ENTRIES = ["fresh.txt", "fresh.html", "newdir/index.html", "dir/late.txt"
 LAYOUT_PROBES = ["/fresh.txt", "/fresh", "/fresh.html", "/newdir", "/newdir/", "/newdir/index.html", "/newdir/index", "/dir/late.txt", "/dir/late", "/file.txt", "/dir/"]
 
 
-def layout_family(r, tier):
+NESTED_ONLY_TREE = {"a.txt": b"A", "docs": None, "docs/guide.html": b"GUIDE", "docs/sub": None, "docs/sub/deep.html": b"DEEP", "docs/sub/index.html": b"SUB INDEX", "empty": None}
+NESTED_ENTRIES = ["late.html", "docs/late.html", "index.html", "docs/index.html"]
+NESTED_PROBES = ["/docs/guide", "/docs/sub/deep", "/docs/sub/", "/docs/sub", "/late", "/docs/late", "/", "/docs/", "/docs", "/a.txt", "/nothing", "/docs/guide.html"]
+
+
+def layout_family(r, tier, nested=False):
     """'Every directory layout': the layout changes while the application objects live on. Every sequence of <= 3 (thorough: 4)
     create/delete steps over four entries (a file, a page, a directory with an index page, a file in an existing directory);
     before the first and after every step all probe paths are requested from the same four application objects and judged
     against the layout as it is at that moment."""
-    sb = Sandbox()
-    ROOTNAME[0] = "root"
     saved = dict(ROOT_TREE)
+    if nested:
+        # a directory whose pages all live below sub-directories: nothing at its top level ends in .html (until a step creates it)
+        ROOT_TREE.clear()
+        ROOT_TREE.update(NESTED_ONLY_TREE)
+    entries_, probes_ = (NESTED_ENTRIES, NESTED_PROBES) if nested else (LAYOUT_ENTRIES, LAYOUT_PROBES)
+    try:
+        sb = Sandbox()
+    except BaseException:
+        ROOT_TREE.clear()
+        ROOT_TREE.update(saved)
+        raise
+    ROOTNAME[0] = "root"
     present = set()
 
     def toggle(e):
@@ -552,17 +567,17 @@ def layout_family(r, tier):
         apps = sb.apps("absolute")
         depth = 3 if tier == "quick" else 4
         for n in range(1, depth + 1):
-            for seq in itertools.product(range(len(LAYOUT_ENTRIES)), repeat=n):
+            for seq in itertools.product(range(len(entries_)), repeat=n):
                 for e in sorted(present):
                     toggle(e)
                 for step in range(-1, n):
                     if step >= 0:
-                        toggle(LAYOUT_ENTRIES[seq[step]])
-                    for path in LAYOUT_PROBES:
+                        toggle(entries_[seq[step]])
+                    for path in probes_:
                         for iface in ("wsgi", "asgi"):
                             for kind in ("Files", "Pages"):
-                                judge(r, apps, "layout", iface, kind, path, note=[LAYOUT_ENTRIES[i] for i in seq[:step + 1]])
-        r.sample({"layout_entries": LAYOUT_ENTRIES, "probes": LAYOUT_PROBES, "sequences": f"all toggle sequences up to length {depth}"})
+                                judge(r, apps, "layout-nested" if nested else "layout", iface, kind, path, note=[entries_[i] for i in seq[:step + 1]])
+        r.sample({"layout_entries": entries_, "probes": probes_, "sequences": f"all toggle sequences up to length {depth}"})
     finally:
         ROOT_TREE.clear()
         ROOT_TREE.update(saved)
@@ -576,7 +591,7 @@ def run_shard(desc, tier):
         from ..core import fresh
         return fresh.optimized(__name__, tuple(desc[1]), tier)
     if desc[0] == "layouts":
-        layout_family(r, tier)
+        layout_family(r, tier, nested=len(desc) > 1)
         return r
     if desc[0] == "threads":
         thread_family(r, desc[1], tier)
@@ -619,8 +634,8 @@ def replay(w):
         hits = {k: v for k, v in r.viol.items() if v[1].get("path") == w["path"] and v[1].get("iface") == w["iface"]}
         return bool(hits), {"violations": sorted(hits), "texts": [v[2][:300].replace(_AUDIT.get("sandbox") or "<none>", "<sandbox>") for v in hits.values()]}
     r = R()
-    if w.get("spelling") == "layout":
-        layout_family(r, "quick")
+    if w.get("spelling") in ("layout", "layout-nested"):
+        layout_family(r, "quick", nested=w["spelling"] == "layout-nested")
         hits = {k: v for k, v in r.viol.items() if v[1].get("path") == w["path"] and v[1].get("iface") == w["iface"]}
         return bool(hits), {"violations": sorted(hits), "texts": [v[2][:400] for v in hits.values()]}
     if "threads" in w:
